@@ -629,3 +629,106 @@ func domConds(in ssa.Instruction) []string {
 	}
 	return out
 }
+
+// edgeConds lists the branch conditions known to hold when control flows along pred -> succ: those dominating pred
+// plus pred's own branch decision.
+func edgeConds(pred, succ *ssa.BasicBlock) []string {
+	var out []string
+	if len(pred.Instrs) > 0 {
+		out = domConds(pred.Instrs[len(pred.Instrs)-1])
+		if iff, ok := pred.Instrs[len(pred.Instrs)-1].(*ssa.If); ok && len(pred.Succs) == 2 && pred.Succs[0] != pred.Succs[1] {
+			if pred.Succs[0] == succ {
+				out = append(out, pathOf(iff.Cond)+"=T")
+			} else if pred.Succs[1] == succ {
+				out = append(out, pathOf(iff.Cond)+"=F")
+			}
+		}
+	}
+	return out
+}
+
+type phiCase struct {
+	Val   ssa.Value
+	Conds []string
+}
+
+// phiCases flattens a (possibly nested) phi into its incoming values, each with the conditions of its edge.
+func phiCases(v ssa.Value) []phiCase {
+	phi, ok := v.(*ssa.Phi)
+	if !ok {
+		return []phiCase{{v, nil}}
+	}
+	var out []phiCase
+	seen := map[*ssa.Phi]bool{}
+	var rec func(p *ssa.Phi, extra []string)
+	rec = func(p *ssa.Phi, extra []string) {
+		if seen[p] {
+			return
+		}
+		seen[p] = true
+		for i, e := range p.Edges {
+			if i >= len(p.Block().Preds) {
+				continue
+			}
+			conds := append(append([]string{}, extra...), edgeConds(p.Block().Preds[i], p.Block())...)
+			if q, ok := e.(*ssa.Phi); ok {
+				rec(q, conds)
+				continue
+			}
+			out = append(out, phiCase{e, conds})
+		}
+	}
+	rec(phi, nil)
+	return out
+}
+
+func hasCond(conds []string, pattern string) bool {
+	r := re(pattern)
+	for _, c := range conds {
+		if r.MatchString(c) {
+			return true
+		}
+	}
+	return false
+}
+
+// caseLadder follows a switch lowered to a chain of `tag < K` tests: it returns the thresholds in order and the
+// body block of every case; the last body is the default case.
+func caseLadder(fn *ssa.Function, tagRe string) (thr []int64, bodies []*ssa.BasicBlock) {
+	r := re(tagRe)
+	var start *ssa.BasicBlock
+	for _, b := range fn.Blocks {
+		if len(b.Instrs) == 0 {
+			continue
+		}
+		if iff, ok := b.Instrs[len(b.Instrs)-1].(*ssa.If); ok {
+			if bo, ok := iff.Cond.(*ssa.BinOp); ok && bo.Op == token.LSS && r.MatchString(pathOf(bo.X)) {
+				if _, ok := bo.Y.(*ssa.Const); ok {
+					start = b
+					break
+				}
+			}
+		}
+	}
+	for b := start; b != nil; {
+		iff, ok := b.Instrs[len(b.Instrs)-1].(*ssa.If)
+		if !ok {
+			bodies = append(bodies, b)
+			break
+		}
+		bo, ok := iff.Cond.(*ssa.BinOp)
+		if !ok || bo.Op != token.LSS || !r.MatchString(pathOf(bo.X)) {
+			bodies = append(bodies, b)
+			break
+		}
+		k, ok := bo.Y.(*ssa.Const)
+		if !ok {
+			bodies = append(bodies, b)
+			break
+		}
+		thr = append(thr, k.Int64())
+		bodies = append(bodies, b.Succs[0])
+		b = b.Succs[1]
+	}
+	return
+}
